@@ -29,6 +29,14 @@ def dyn_kind(n):
     return {CallNode: 'call', BindNode: 'bind', EvalNode: 'eval', FStrNode: 'fstr', ImportNode: 'import', XRefNode: 'xref'}.get(type(n))
 
 def run_case(docs, world, style=('flow', 0, 0), timeout=5, extra=None):
+    """full observation of one build; a build that hits the watchdog is run once more with six times the budget before it is
+    called a hang (a loaded machine must not turn into 'evaluation did not terminate')"""
+    obs = _run_case(docs, world, style, timeout, extra)
+    if obs.get('cfg', {}).get('err') == 'HANG':
+        obs = _run_case(docs, world, style, timeout * 6, extra)
+    return obs
+
+def _run_case(docs, world, style=('flow', 0, 0), timeout=5, extra=None):
     """full observation of one build: merged-tree facts, evaluated value JSON, attributed execution log"""
     obs = {}
     old = signal.signal(signal.SIGALRM, _alarm)
